@@ -59,6 +59,33 @@ func (s *store) setPoison(i, id int) {
 	}
 }
 
+// setSentinel stores a finite, distinct value derived from id (1000..50999,
+// exact in float32; complex: a different value in each part). Finite
+// sentinels make multiplicative or additive writes to unaddressed storage
+// visible (NaN·beta and NaN+x keep the NaN payload bit for bit).
+func (s *store) setSentinel(i, id int) {
+	v := float64(1000 + id%50000)
+	switch s.p {
+	case S:
+		s.f32[i] = float32(v)
+	case D:
+		s.f64[i] = v
+	case C:
+		s.c64[i] = complex(float32(v), float32(-v-0.5))
+	case Z:
+		s.c128[i] = complex(v, -v-0.5)
+	}
+}
+
+// fillGuard fills element i of unaddressed storage according to the mode.
+func (s *store) fillGuard(i, id int, finite bool) {
+	if finite {
+		s.setSentinel(i, id)
+	} else {
+		s.setPoison(i, id)
+	}
+}
+
 // setVal stores the canonical value v converted to the precision; it panics
 // if the conversion is not exact (the alphabets guarantee exactness).
 func (s *store) setVal(i int, v complex128) {
